@@ -118,7 +118,10 @@ def run(ctx, res):
                  f"{len(DELIMS)} delimiter sets (ERB with shared prefix, PHP/angle, triple parentheses, LaTeX-style with regex "
                  "metacharacters, brackets, dollar, long) x 4 trim/lstrip settings, rendered through Environment, Template(...), "
                  "overlay and overlay chains with the environments interleaved; then > 50 further configurations are created and "
-                 "the first environments re-checked; whole-line tags and comments rewritten as line statements/comments; "
+                 "the first environments re-checked; whole-line tags and comments rewritten as line statements/comments, about a third "
+                 "of the tags keeping a ( [ { open across 1-3 line breaks (nested, strings with brackets/prefixes, operator "
+                 "spelled like a prefix at a continuation start, colon/tokens after the closing bracket), line form == "
+                 "block-tag form and == lexer model tokens; "
                  "environment histories (see environment_ways.rule): " + ways["rule"]),
         "samples": samples,
         "line_statement_cases": ls,
@@ -128,70 +131,57 @@ def run(ctx, res):
 
 
 def run_line_statements(ctx, res, jinja2):
+    """whole-line tags / comments as line statements / comments (generator: envways.line_probe): single-line tags and
+    tags that keep a bracket open across 1-3 line breaks; oracle: line form == block-tag form under trim+lstrip, and the
+    real tokens of the line form == the Lean lexer model's (which carries the bracket-balancing stack)"""
     rng = ctx.rng("line")
     block_env = jinja2.Environment(trim_blocks=True, lstrip_blocks=True, keep_trailing_newline=True)
     evaluations, distinct = 0, set()
-    known = cr_sources = 0
+    known = cr_sources = multi = model_cmp = 0
+    per_key = {}
+
+    def violate(key, what, replay, no_input=False):
+        per_key[key] = per_key.get(key, 0) + 1
+        if per_key[key] <= 5:
+            res.violate(key, what, replay, no_input=no_input)
+
     for prefix, cprefix in (("#", "##"), ("%", "%%"), ("@@", "//")):
-        line_env = jinja2.Environment(trim_blocks=True, lstrip_blocks=True, keep_trailing_newline=True,
-                                      line_statement_prefix=prefix, line_comment_prefix=cprefix)
-        for _ in range(ctx.pick(300, 3000)):
-            lines = []
-            n = rng.randrange(1, 7)
-            for j in range(n):
-                k = rng.choice(["text", "text", "tag", "tag", "comment"])
-                ind = rng.choice(["", "  ", "\t"])
-                if k == "text":
-                    lines.append(("text", ind + rng.choice(["a", "b c", "é", "x  "])))
-                elif k == "tag":
-                    lines.append(("tag", ind, rng.choice(["set z = 1", "if true", "endif", "for i in [1]", "endfor"])))
-                else:
-                    lines.append(("comment", ind, rng.choice(["c", "note 1"])))
-            # balance: keep only well-nested if/for by construction: replace openers/closers with set when unbalanced
-            stack, fixed = [], []
-            for ln in lines:
-                if ln[0] == "tag" and ln[2] in ("if true", "for i in [1]"):
-                    stack.append(ln[2])
-                    fixed.append(ln)
-                elif ln[0] == "tag" and ln[2] in ("endif", "endfor"):
-                    if stack and ((stack[-1] == "if true") == (ln[2] == "endif")):
-                        stack.pop()
-                        fixed.append(ln)
-                    else:
-                        fixed.append(("tag", ln[1], "set z = 1"))
-                else:
-                    fixed.append(ln)
-            for op in reversed(stack):
-                fixed.append(("tag", "", "endif" if op == "if true" else "endfor"))
-            # a whole-line tag must not be followed by a blank line: every line here is non-blank by construction
-            # line breaks: "\n" for the whole source, CRLF, lone CR, or mixed (all three are line breaks of a template)
-            nl = rng.choice(["\n", "\n", "\n", "\r\n", "\r", None])
-            ends = [nl if nl is not None else rng.choice(["\n", "\r\n", "\r"]) for _ in fixed]
-            blocks = "".join((l[1] + e) if l[0] == "text" else (l[1] + "{% " + l[2] + " %}" + e) if l[0] == "tag"
-                             else (l[1] + "{# " + l[2] + " #}" + e) for l, e in zip(fixed, ends))
-            blocks_plus = "".join((l[1] + e) if l[0] == "text" else (l[1] + "{% " + l[2] + " %}" + e) if l[0] == "tag"
-                                  else (l[1] + "{# " + l[2] + " +#}" + e) for l, e in zip(fixed, ends))
-            linesrc = "".join((l[1] + e) if l[0] == "text" else (l[1] + prefix + " " + l[2] + e) if l[0] == "tag"
-                              else (l[1] + cprefix + " " + l[2] + e) for l, e in zip(fixed, ends))
+        o = ew.options(trim_blocks=True, lstrip_blocks=True, keep_trailing_newline=True,
+                       line_statement_prefix=prefix, line_comment_prefix=cprefix)
+        line_env = jinja2.Environment(**o)
+        probes = [ew.line_probe(rng, o) for _ in range(ctx.pick(300, 3000))]
+        models = lc.model_lex([(o, p["line_source"]) for p in probes])
+        for p, m in zip(probes, models):
+            linesrc, blocks = p["line_source"], p["block_source"]
             cr_sources += ("\r" in linesrc)
+            multi += p["multiline_statements"] > 0
             ref = render(block_env, jinja2, blocks)
             got = render(line_env, jinja2, linesrc)
             evaluations += 1
             distinct.add(linesrc)
             if got != ref:
-                has_comment = any(l[0] == "comment" for l in fixed)
-                documented = render(block_env, jinja2, blocks_plus)
+                has_comment = p["has_line_comment"]
+                documented = render(block_env, jinja2, p["block_source_plus"])
                 if has_comment and got == documented:
                     known += 1
-                    res.violate("C13:linecomment:whole-line-comment-keeps-its-newline",
-                                f"whole-line comment written as a line comment keeps its line break: {linesrc!r} renders {got!r}, "
-                                f"block/comment form {blocks!r} renders {ref!r}", {"line_source": linesrc, "block_source": blocks})
+                    violate("C13:linecomment:whole-line-comment-keeps-its-newline",
+                            f"whole-line comment written as a line comment keeps its line break: {linesrc!r} renders {got!r}, "
+                            f"block/comment form {blocks!r} renders {ref!r}", {"line_source": linesrc, "block_source": blocks})
                 else:
-                    res.violate("C13:line-statement:" + ("comment" if has_comment else "tags"),
-                                f"line-statement form {linesrc!r} (prefix {prefix!r}) renders {got!r}; block form {blocks!r} renders {ref!r}",
-                                {"line_source": linesrc, "block_source": blocks, "prefix": prefix})
+                    violate("C13:line-statement:" + ("multi-line" if p["multiline_statements"] else "comment" if has_comment else "tags"),
+                            f"line-statement form {linesrc!r} (prefix {prefix!r}) renders {got!r}; block form {blocks!r} renders {ref!r}",
+                            {"line_source": linesrc, "block_source": blocks, "prefix": prefix, "comment_prefix": cprefix})
+                    continue
+            if m["res"][0] != "oom":
+                model_cmp += 1
+                toks = lc.real_lex(line_env, linesrc)
+                if toks != m["res"]:
+                    violate("C13:line-statement:lexer-model", f"tokens of {linesrc!r} (prefix {prefix!r}) are {str(toks)[:300]}; the lexer "
+                            f"model gives {str(m['res'])[:300]}", {"line_source": linesrc, "prefix": prefix, "comment_prefix": cprefix},
+                            no_input=True)
     return {"evaluations": evaluations, "distinct": len(distinct), "known_finding_hits": known,
-            "sources_with_crlf_or_cr_line_breaks": cr_sources}
+            "sources_with_crlf_or_cr_line_breaks": cr_sources, "sources_with_a_statement_over_several_lines": multi,
+            "compared_with_lexer_model": model_cmp}
 
 
 def run_env_ways(ctx, res, jinja2):
@@ -276,7 +266,8 @@ def run_env_ways(ctx, res, jinja2):
                                     f"block/comment form {p['block_source']!r} renders {bref!r}",
                                     {"line_source": src, "block_source": p["block_source"]})
                         else:
-                            violate("C13:env:line-statement:" + ("comment" if p["has_line_comment"] else "tags"),
+                            violate("C13:env:line-statement:" + ("multi-line" if p["multiline_statements"] else
+                                                                 "comment" if p["has_line_comment"] else "tags"),
                                     f"{ew.describe(events, ev)}: line form {src!r} renders {got!r}; block form "
                                     f"{p['block_source']!r} renders {bref!r}",
                                     {"history": ew.history(events, ev), "source": src, "block_source": p["block_source"],
@@ -320,4 +311,15 @@ def replay(ctx, case):
     c = case["case"]
     if isinstance(c, dict) and "history" in c:
         return ew.replay_history(core.import_jinja(), c)
+    if isinstance(c, dict) and "line_source" in c and "prefix" in c:
+        jinja2 = core.import_jinja()
+        o = ew.options(trim_blocks=True, lstrip_blocks=True, keep_trailing_newline=True, line_statement_prefix=c["prefix"],
+                       line_comment_prefix=c.get("comment_prefix"))
+        out = {"line_form_renders": render(jinja2.Environment(**o), jinja2, c["line_source"]),
+               "tokens": lc.real_lex(jinja2.Environment(**o), c["line_source"]),
+               "lexer_model": lc.model_lex([(o, c["line_source"])])[0]["res"]}
+        if "block_source" in c:
+            bo = dict(o, line_statement_prefix=None, line_comment_prefix=None)
+            out["block_form_renders"] = render(jinja2.Environment(**bo), jinja2, c["block_source"])
+        return out
     return c
